@@ -16,6 +16,8 @@ impl Rng {
         r
     }
     pub fn next(&mut self) -> u64 {
+        // generators draw constantly: this is their progress signal for the hang watchdog
+        TICK.fetch_add(1, std::sync::atomic::Ordering::Relaxed);
         self.0 = self.0.wrapping_add(0x9E37_79B9_7F4A_7C15);
         let mut z = self.0;
         z = (z ^ (z >> 30)).wrapping_mul(0xBF58_476D_1CE4_E5B9);
@@ -109,9 +111,40 @@ pub fn init() {
     }));
 }
 
+/// Progress counter for the hang watchdog: bumped around every call into the code under test.
+pub static TICK: std::sync::atomic::AtomicU64 = std::sync::atomic::AtomicU64::new(0);
+
 /// Run `f`, mapping a panic to `None`.
 pub fn guarded<T>(f: impl FnOnce() -> T) -> Option<T> {
-    std::panic::catch_unwind(std::panic::AssertUnwindSafe(f)).ok()
+    TICK.fetch_add(1, std::sync::atomic::Ordering::Relaxed);
+    let r = std::panic::catch_unwind(std::panic::AssertUnwindSafe(f)).ok();
+    TICK.fetch_add(1, std::sync::atomic::Ordering::Relaxed);
+    r
+}
+
+/// Watchdog: if the harness makes no progress for `secs` seconds, a call into the code under test does not
+/// return (the engines that run the real code in-process have no other way to get out).  The process exits
+/// with code 4 and a `HANG` line; the orchestrator reports it as a violation of "returns in bounded time".
+pub fn start_watchdog(engine: &str, secs: u64) {
+    let engine = engine.to_string();
+    std::thread::spawn(move || {
+        let mut last = TICK.load(std::sync::atomic::Ordering::Relaxed);
+        let mut idle = 0u64;
+        loop {
+            std::thread::sleep(std::time::Duration::from_secs(1));
+            let now = TICK.load(std::sync::atomic::Ordering::Relaxed);
+            if now == last {
+                idle += 1;
+                if idle >= secs {
+                    println!("HANG engine={engine}: no progress for {secs} s — a call into the code under test does not return");
+                    std::process::exit(4);
+                }
+            } else {
+                idle = 0;
+                last = now;
+            }
+        }
+    });
 }
 
 /// Paired writer: one operation line (input for the Lean model) and one observation line
